@@ -31,6 +31,100 @@ import copy
 _INV = {ast.Eq: ast.NotEq, ast.NotEq: ast.Eq, ast.Is: ast.IsNot, ast.IsNot: ast.Is, ast.In: ast.NotIn, ast.NotIn: ast.In}
 
 
+def _negate(t):
+    """the negation of a test, pushed inwards: De Morgan over and / or, inverted ==, is, in"""
+    if isinstance(t, ast.UnaryOp) and isinstance(t.op, ast.Not):
+        return t.operand
+    if isinstance(t, ast.Compare) and len(t.ops) == 1 and type(t.ops[0]) in _INV:
+        return ast.copy_location(ast.Compare(left=t.left, ops=[_INV[type(t.ops[0])]()], comparators=t.comparators), t)
+    if isinstance(t, ast.BoolOp):
+        return ast.copy_location(ast.BoolOp(op=ast.Or() if isinstance(t.op, ast.And) else ast.And(), values=[_negate(v) for v in t.values]), t)
+    return ast.copy_location(ast.UnaryOp(op=ast.Not(), operand=t), t)
+
+
+def _loop_guards(body):
+    """one spelling for `skip this element`:  `if C: continue ; REST` with a small REST (<= 12 nodes) is `if not C: REST`;
+    a loop body ending in a big `if P: BLOCK` is `if not P: continue ; BLOCK`"""
+    size = lambda stmts: sum(1 for b in stmts for _n in ast.walk(b))
+    for i, st in enumerate(body):
+        if isinstance(st, ast.If) and not st.orelse and len(st.body) == 1 and isinstance(st.body[0], ast.Continue) and i + 1 < len(body):
+            rest = body[i + 1:]
+            if size(rest) <= 12 and not any(isinstance(n, ast.NamedExpr) for n in ast.walk(st.test)):
+                new = ast.copy_location(ast.If(test=_negate(st.test), body=_loop_guards(rest), orelse=[]), st)
+                return body[:i] + [new]
+            break
+    last = body[-1] if body else None
+    if isinstance(last, ast.If) and not last.orelse and size(last.body) > 12 and not isinstance(last.body[-1], (ast.Return, ast.Raise, ast.Continue, ast.Break)):
+        guard = ast.copy_location(ast.If(test=_negate(last.test), body=[ast.copy_location(ast.Continue(), last)], orelse=[]), last)
+        return body[:-1] + [guard] + _loop_guards(last.body)
+    return body
+
+
+def _unroll_comp(node):
+    """[E(k) for k in (c1, c2, ..)] with a literal tuple / list / dict-literal view of at most 8 constant-like elements and no filter:
+    the element expressions [E(c1), E(c2), ..]; None when the comprehension is not of that kind"""
+    if not isinstance(node, (ast.ListComp, ast.GeneratorExp)) or len(node.generators) != 1:
+        return None
+    g = node.generators[0]
+    if g.ifs or g.is_async:
+        return None
+
+    def unit(e):
+        return isinstance(e, ast.Constant) or _plain_ref(e)
+
+    it = g.iter
+    rows = None
+    if isinstance(it, (ast.Tuple, ast.List)) and 1 <= len(it.elts) <= 8:
+        rows = list(it.elts)
+    elif isinstance(it, ast.Call) and isinstance(it.func, ast.Attribute) and it.func.attr in ("items", "keys", "values") and not it.args and isinstance(it.func.value, ast.Dict) and 1 <= len(it.func.value.keys) <= 8 and all(k is not None for k in it.func.value.keys):
+        d = it.func.value
+        rows = [ast.Tuple(elts=[k, v], ctx=ast.Load()) for k, v in zip(d.keys, d.values)] if it.func.attr == "items" else list(d.keys) if it.func.attr == "keys" else list(d.values)
+    elif isinstance(it, ast.Dict) and 1 <= len(it.keys) <= 8 and all(k is not None for k in it.keys):
+        rows = list(it.keys)
+    if rows is None:
+        return None
+    if isinstance(g.target, ast.Name):
+        if not all(unit(r) or isinstance(r, ast.Tuple) and all(unit(x) for x in r.elts) for r in rows):
+            return None
+        maps = [{g.target.id: r} for r in rows]
+    elif isinstance(g.target, ast.Tuple) and all(isinstance(t, ast.Name) for t in g.target.elts):
+        if not all(isinstance(r, (ast.Tuple, ast.List)) and len(r.elts) == len(g.target.elts) and all(unit(x) for x in r.elts) for r in rows):
+            return None
+        maps = [dict(zip([t.id for t in g.target.elts], r.elts)) for r in rows]
+    else:
+        return None
+    if any(isinstance(n, (ast.Lambda, ast.ListComp, ast.GeneratorExp, ast.SetComp, ast.DictComp, ast.NamedExpr)) for n in ast.walk(node.elt)):
+        return None
+    out = []
+    for mp in maps:
+        class _S(ast.NodeTransformer):
+            def visit_Name(s_, n):
+                return copy.deepcopy(mp[n.id]) if n.id in mp and isinstance(n.ctx, ast.Load) else n
+
+        out.append(_S().visit(copy.deepcopy(node.elt)))
+    return out
+
+
+def _binds_loop_exit(stmts) -> bool:
+    """a break / continue in `stmts` that belongs to the loop these statements are the body of (not to a loop nested in them)"""
+    for st in stmts:
+        if isinstance(st, (ast.Break, ast.Continue)):
+            return True
+        if isinstance(st, (ast.For, ast.While, ast.AsyncFor)):
+            if _binds_loop_exit(st.orelse):
+                return True
+            continue
+        if isinstance(st, (ast.FunctionDef, ast.ClassDef, ast.AsyncFunctionDef)):
+            continue
+        for f_ in ("body", "orelse", "finalbody"):
+            if _binds_loop_exit(getattr(st, f_, []) or []):
+                return True
+        for h in getattr(st, "handlers", []) or []:
+            if _binds_loop_exit(h.body):
+                return True
+    return False
+
+
 def _plain_ref(e) -> bool:
     """a name or a dotted attribute of a name (a function / bound method handed around as a value)"""
     while isinstance(e, ast.Attribute):
@@ -156,21 +250,81 @@ class Normalizer(ast.NodeTransformer):
             return ast.copy_location(ast.Assign(targets=[ast.Attribute(value=c.args[0], attr=c.args[1].value, ctx=ast.Store())], value=c.args[2]), node)
         return node
 
-    def visit_For(self, node):
+    def visit_JoinedStr(self, node):
         self.generic_visit(node)
-        # for k in ("a", "b", "c"): <a few simple statements>   ->   the statements once per constant
+        # f"{'abc'}_x" -> "abc_x": constant pieces are merged (a loop over constant names was unrolled)
+        parts = []
+        for v in node.values:
+            if isinstance(v, ast.FormattedValue) and isinstance(v.value, ast.Constant) and isinstance(v.value.value, (str, int)) and not isinstance(v.value.value, bool) and v.conversion == -1 and v.format_spec is None:
+                v = ast.Constant(value=str(v.value.value))
+            if isinstance(v, ast.Constant) and isinstance(v.value, str) and parts and isinstance(parts[-1], ast.Constant) and isinstance(parts[-1].value, str):
+                parts[-1] = ast.Constant(value=parts[-1].value + v.value)
+            else:
+                parts.append(v)
+        parts = [x for x in parts if not (isinstance(x, ast.Constant) and x.value == "")]
+        if not parts:
+            return ast.copy_location(ast.Constant(value=""), node)
+        if len(parts) == 1 and isinstance(parts[0], ast.Constant):
+            return ast.copy_location(parts[0], node)
+        node.values = parts
+        return node
+
+    def visit_For(self, node):
+        r = self._visit_For(node)
+        for x in (r if isinstance(r, list) else [r]):
+            if isinstance(x, ast.For):
+                x.body = _loop_guards(x.body)
+        return r
+
+    def _visit_For(self, node):
+        self.generic_visit(node)
+        # for i, x in enumerate(S[a:], a): BODY   ->   for i in range(a, len(S)): BODY[x := S[i]]      (a is a position: >= 0)
+        it = node.iter
         if (
-            isinstance(node.iter, (ast.Tuple, ast.List)) and 1 <= len(node.iter.elts) <= 8 and all(isinstance(e, ast.Constant) and isinstance(e.value, (str, int)) or _plain_ref(e) for e in node.iter.elts)
-            and isinstance(node.target, ast.Name) and not node.orelse and len(node.body) <= 3
-            and all(isinstance(b, (ast.Expr, ast.Assign)) for b in node.body)
-            and not any(isinstance(n, ast.Name) and n.id == node.target.id and isinstance(n.ctx, ast.Store) for b in node.body for n in ast.walk(b))
+            isinstance(it, ast.Call) and isinstance(it.func, ast.Name) and it.func.id == "enumerate" and it.args
+            and isinstance(it.args[0], ast.Subscript) and isinstance(it.args[0].slice, ast.Slice)
+            and it.args[0].slice.lower is not None and it.args[0].slice.upper is None and it.args[0].slice.step is None
+            and _plain_ref(it.args[0].value)
+            and isinstance(node.target, ast.Tuple) and len(node.target.elts) == 2 and all(isinstance(e, ast.Name) for e in node.target.elts)
         ):
-            tgt = node.target.id
+            start = it.args[1] if len(it.args) == 2 else next((k.value for k in it.keywords if k.arg == "start"), None)
+            lo = it.args[0].slice.lower
+            seq = it.args[0].value
+            i_name, x_name = node.target.elts[0].id, node.target.elts[1].id
+            body_stores = {n.id for b in node.body + node.orelse for n in ast.walk(b) if isinstance(n, ast.Name) and isinstance(n.ctx, (ast.Store, ast.Del))}
+            if start is not None and ast.unparse(start) == ast.unparse(lo) and isinstance(lo, (ast.Name, ast.Constant)) and not ({i_name, x_name} & body_stores) and i_name != x_name:
+                elem = ast.Subscript(value=copy.deepcopy(seq), slice=ast.Name(id=i_name, ctx=ast.Load()), ctx=ast.Load())
+
+                class _E(ast.NodeTransformer):
+                    def visit_Name(s_, n):
+                        return copy.deepcopy(elem) if n.id == x_name and isinstance(n.ctx, ast.Load) else n
+
+                new_body = [_E().visit(b) for b in node.body]
+                rng = ast.Call(func=ast.Name(id="range", ctx=ast.Load()), args=[copy.deepcopy(lo), ast.Call(func=ast.Name(id="len", ctx=ast.Load()), args=[copy.deepcopy(seq)], keywords=[])], keywords=[])
+                node = ast.copy_location(ast.For(target=ast.Name(id=i_name, ctx=ast.Store()), iter=rng, body=new_body, orelse=node.orelse), node)
+                ast.fix_missing_locations(node)
+        # for k in ("a", "b", "c"): <a few simple statements>   ->   the statements once per constant
+        def _unit(e):
+            return isinstance(e, ast.Constant) and isinstance(e.value, (str, int, float, type(None))) or _plain_ref(e)
+
+        tnames = [node.target.id] if isinstance(node.target, ast.Name) else [e.id for e in node.target.elts] if isinstance(node.target, ast.Tuple) and all(isinstance(e, ast.Name) for e in node.target.elts) else None
+        if (
+            isinstance(node.iter, (ast.Tuple, ast.List)) and 1 <= len(node.iter.elts) <= 8 and tnames and not node.orelse and len(node.body) <= 8
+            and (
+                all(_unit(e) for e in node.iter.elts) if isinstance(node.target, ast.Name)
+                else all(isinstance(e, (ast.Tuple, ast.List)) and len(e.elts) == len(tnames) and all(_unit(x) for x in e.elts) for e in node.iter.elts)
+            )
+            and not _binds_loop_exit(node.body)
+            and not any(isinstance(n, ast.Name) and n.id in tnames and isinstance(n.ctx, ast.Store) for b in node.body for n in ast.walk(b))
+            and not any(isinstance(n, (ast.FunctionDef, ast.Lambda, ast.Yield, ast.YieldFrom)) for b in node.body for n in ast.walk(b))
+        ):
             out = []
             for e in node.iter.elts:
+                mp = {tnames[0]: e} if isinstance(node.target, ast.Name) else dict(zip(tnames, e.elts))
+
                 class _S(ast.NodeTransformer):
                     def visit_Name(s_, n):
-                        return copy.deepcopy(e) if n.id == tgt and isinstance(n.ctx, ast.Load) else n
+                        return copy.deepcopy(mp[n.id]) if n.id in mp and isinstance(n.ctx, ast.Load) else n
 
                 for b in node.body:
                     nb = _S().visit(copy.deepcopy(b))
@@ -206,6 +360,7 @@ class Normalizer(ast.NodeTransformer):
     def visit_While(self, node):
         self.generic_visit(node)
         node.test = self._test(node.test)
+        node.body = _loop_guards(node.body)
         return node
 
     def visit_IfExp(self, node):
@@ -273,8 +428,50 @@ class Normalizer(ast.NodeTransformer):
                 return ast.copy_location(new, node)
         return node
 
+    def visit_ListComp(self, node):
+        self.generic_visit(node)
+        elts = _unroll_comp(node)
+        return ast.copy_location(ast.List(elts=elts, ctx=ast.Load()), node) if elts is not None else node
+
+    def visit_Assign(self, node):
+        self.generic_visit(node)
+        # a, b = (f(n) for n in (x, y))   ->   a, b = (f(x), f(y))      (the generator is consumed whole by the unpacking)
+        if isinstance(node.value, ast.GeneratorExp) and len(node.targets) == 1 and isinstance(node.targets[0], (ast.Tuple, ast.List)):
+            elts = _unroll_comp(node.value)
+            if elts is not None:
+                node.value = ast.copy_location(ast.Tuple(elts=elts, ctx=ast.Load()), node.value)
+        # a, b = (e1, e2)   ->   a = e1 ; b = e2      (no ei reads a target)
+        if (
+            len(node.targets) == 1 and isinstance(node.targets[0], (ast.Tuple, ast.List)) and isinstance(node.value, (ast.Tuple, ast.List))
+            and len(node.targets[0].elts) == len(node.value.elts) >= 2 and all(isinstance(t, ast.Name) for t in node.targets[0].elts)
+            and not any(isinstance(e, ast.Starred) for e in node.value.elts)
+        ):
+            tn = {t.id for t in node.targets[0].elts}
+            if len(tn) == len(node.targets[0].elts) and not any(isinstance(n, ast.Name) and n.id in tn for e in node.value.elts for n in ast.walk(e)):
+                return [ast.copy_location(ast.Assign(targets=[t], value=e), node) for t, e in zip(node.targets[0].elts, node.value.elts)]
+        return node
+
     def visit_Call(self, node):
         self.generic_visit(node)
+        # f(*[a, b]) / f(*(a, b)) / f(*(g(k) for k in ("x", "y")))  ->  f(a, b)
+        if any(isinstance(a, ast.Starred) for a in node.args):
+            new_args = []
+            for a in node.args:
+                if isinstance(a, ast.Starred) and isinstance(a.value, (ast.Tuple, ast.List)) and not any(isinstance(x, ast.Starred) for x in a.value.elts):
+                    new_args.extend(a.value.elts)
+                elif isinstance(a, ast.Starred) and isinstance(a.value, ast.GeneratorExp) and _unroll_comp(a.value) is not None:
+                    new_args.extend(_unroll_comp(a.value))
+                else:
+                    new_args.append(a)
+            node.args = new_args
+        # tuple(<gen over a literal>) / list(..) / sum(..) / max(..) / min(..) / sorted(..): the generator is consumed whole
+        if isinstance(node.func, ast.Name) and node.func.id in ("tuple", "list", "sum", "max", "min", "sorted", "set", "frozenset") and len(node.args) >= 1 and isinstance(node.args[0], ast.GeneratorExp):
+            elts = _unroll_comp(node.args[0])
+            if elts is not None:
+                node.args[0] = ast.copy_location(ast.Tuple(elts=elts, ctx=ast.Load()), node.args[0])
+        # "abc".capitalize() / .upper() / .lower() / .title() on a literal
+        if isinstance(node.func, ast.Attribute) and isinstance(node.func.value, ast.Constant) and isinstance(node.func.value.value, str) and node.func.attr in ("capitalize", "upper", "lower", "title", "casefold", "strip") and not node.args and not node.keywords:
+            return ast.copy_location(ast.Constant(value=getattr(node.func.value.value, node.func.attr)()), node)
         # getattr(x, "name") -> x.name
         if isinstance(node.func, ast.Name) and node.func.id == "getattr" and len(node.args) == 2 and not node.keywords and isinstance(node.args[1], ast.Constant) and isinstance(node.args[1].value, str) and node.args[1].value.isidentifier():
             return ast.copy_location(ast.Attribute(value=node.args[0], attr=node.args[1].value, ctx=ast.Load()), node)
